@@ -111,8 +111,26 @@ def derived_ranges(s):
              z3.Implies(struct, forall_pat([k], z3.Implies(z3.And(0 <= k, k < v.n), z3.And(0 <= D.start(rngk(s, k)), D.stop(rngk(s, k)) <= s.dimension)), v.keys[k])))]
 
 
+c02_owner = z3.Function("c02_owner", z3.ArraySort(z3.IntSort(), TStr.sort()), z3.ArraySort(TStr.sort(), D.TRange.sort()), z3.IntSort(), z3.IntSort(), z3.IntSort())
+
+
+def owner(s, i):
+    """Position (in the variable order) of the variable whose index range contains component i: a Skolem function of the existence statement proved by
+    induction in OwnerLemmas (every component of [0, dimension) lies in the index range of some variable)."""
+    return c02_owner(D.V(s).keys, D.I(s).vals, D.V(s).n, i)
+
+
+def derived_owner(s):
+    v = D.V(s)
+    i = z3.Int("i!do")
+    struct = z3.And(*[f for l, f in wf_structure(s) if l in ("sizes", "first-at-zero", "adjacent", "dimension")])
+    o = owner(s, i)
+    return [("derived:every-component-has-an-owner",
+             z3.Implies(struct, z3.ForAll([i], z3.Implies(z3.And(0 <= i, i < s.dimension), z3.And(0 <= o, o < v.n, D.start(rngk(s, o)) <= i, i < D.stop(rngk(s, o)))), patterns=[o])))]
+
+
 def derived_all(s):
-    return D.derived_wf(s) + derived_ranges(s)
+    return D.derived_wf(s) + derived_ranges(s) + derived_owner(s)
 
 
 # ---------------------------------------------------------------------------- __get_common_dtype
@@ -369,8 +387,14 @@ def cache_invariant(s):
     return [(f"computed-implies:{l}", z3.Implies(s._DesignSpace__norm_data_is_computed, f)) for l, f in wfnum(s)[1:] + linked(s)]
 
 
+def dtype_invariant(s):
+    # (the common dtype is the float dtype from __init__ on and only ever replaced by a float / integer dtype: complex values are not covered)
+    kind = s._DesignSpace__common_dtype.kind
+    return [("common-dtype-is-float-or-integer", z3.Or(kind == str_lit("f"), kind == str_lit("i")))]
+
+
 def wf_lnk(s):
-    return wf_structure(s) + wf_variables(s) + cache_invariant(s)
+    return wf_structure(s) + wf_variables(s) + cache_invariant(s) + dtype_invariant(s)
 
 
 STRUCT_LNK = ("name", "dimension", "_variables", "normalize", "_DesignSpace__names_to_indices", "_DesignSpace__current_value", "_DesignSpace__has_current_value",
@@ -466,7 +490,7 @@ class UpdateNormalizationVars(Contract):
     def requires(self, c):
         s = c.old.self
         # (every call site is guarded by `if not self.__norm_data_is_computed`)
-        return wf_structure(s) + wf_variables(s) + [("called-only-when-the-data-are-not-computed", z3.Not(s._DesignSpace__norm_data_is_computed))]
+        return wf_structure(s) + wf_variables(s) + dtype_invariant(s) + [("called-only-when-the-data-are-not-computed", z3.Not(s._DesignSpace__norm_data_is_computed))]
 
     def axioms(self, c):
         return derived_all(c.old.self)
@@ -625,8 +649,9 @@ class RoundVectInPlace(Contract):
 
 @register
 class UnnormalizeVectWithIntegers(Contract):
-    """x[i] = u[i] (ub[i] - lb[i]) + lb[i] on normalised components, u[i] elsewhere, then numpy.round on the integer components - for EVERY
-    design space (integer variables or not, any common dtype of the current values)."""
+    """Points (minus_lb): x[i] = u[i] (ub[i] - lb[i]) + lb[i] on normalised components, u[i] elsewhere, then numpy.round on the integer components.
+    Gradients (not minus_lb: normalize_grad): the pure linear scaling g[i] (ub[i] - lb[i]) on normalised components, g[i] elsewhere - NO rounding, also
+    for the components of integer variables.  For EVERY design space (integer variables or not, any common dtype of the current values)."""
 
     targets = (UV,)
     variant = "int"
@@ -663,11 +688,78 @@ class UnnormalizeVectWithIntegers(Contract):
         # (written with the cached norm factor, as in C14: _norm_factor[i] = ub[i] - lb[i] is the clause `norm-factor` of wfnum, restated below at
         # the normalised indices; inside numpy.round the product must be syntactically the computed one)
         affine = N2.el(x, nij) * N2.el(d.nf, nij) + shift
+        cast = ":after-the-integer-cast" if r.obj.kind == "i" else ""
         return [("length", N2.ln(r) == d.dim),
                 ("norm-factor-is-ub-minus-lb", z3.ForAll([j], z3.Implies(z3.And(0 <= j, j < N2.ln(d.ni)), N2.el(d.nf, nij) == N2.el(d.ub, nij) - N2.el(d.lb, nij)))),
-                ("normalized-components", z3.ForAll([j], z3.Implies(z3.And(0 <= j, j < N2.ln(d.ni)), relem(r, nij) == rounded_if_integer(d, nij, affine)))),
-                ("other-components", z3.ForAll([i], z3.Implies(z3.And(0 <= i, i < d.dim, N2.not_normalized(d, i)), relem(r, i) == rounded_if_integer(d, i, N2.el(x, i))))),
+                # (the same two clauses on every path; on the paths that end with the cast of the whole vector to int64 they carry a label of their
+                # own, so that the known finding about that cast - known_findings.json - is tied to exactly these paths)
+                ("normalized-components" + cast, z3.ForAll([j], z3.Implies(z3.And(0 <= j, j < N2.ln(d.ni)), relem(r, nij) == z3.If(mlb, rounded_if_integer(d, nij, affine), affine)))),
+                ("other-components" + cast, z3.ForAll([i], z3.Implies(z3.And(0 <= i, i < d.dim, N2.not_normalized(d, i)),
+                                                                      relem(r, i) == z3.If(mlb, rounded_if_integer(d, i, N2.el(x, i)), N2.el(x, i))))),
                 ("fresh-result", z3.BoolVal(c.result.ref.id != c.old.x_vect.ref.id))]
+
+
+NG, UG = DS + ".normalize_grad", DS + ".unnormalize_grad"
+
+
+@register
+class NormalizeGrad(Contract):
+    """normalize_grad is the linear scaling g[i] (ub[i] - lb[i]) on the normalised components and the identity elsewhere - with or without integer
+    variables (no rounding, no integer cast: a gradient is no point of the design space)."""
+
+    targets = (NG,)
+    variant = "int"
+    prop = ("C02",)
+    self_schema = DS + "#num"
+    numpy = "precise"
+    params = {"g_vect": F1}
+    returns = F1
+    callee_variants = {UV: "int"}
+
+    def requires(self, c):
+        s = c.old.self
+        d = N2.S(s)
+        return N2.wfnum(s) + [("vector-length", N2.ln(c.old.g_vect) == d.dim), ("monotone-lemma", N2.increasing_implies_distinct(d))]
+
+    def ensures(self, c):
+        d = N2.S(c.old.self)
+        g, r = c.old.g_vect, c.result
+        j, i = z3.Int("j!ng"), z3.Int("i!ng")
+        nij = N2.el(d.ni, j)
+        return [("length", N2.ln(r) == d.dim),
+                ("norm-factor-is-ub-minus-lb", z3.ForAll([j], z3.Implies(z3.And(0 <= j, j < N2.ln(d.ni)), N2.el(d.nf, nij) == N2.el(d.ub, nij) - N2.el(d.lb, nij)))),
+                ("scaled-on-normalized-components", z3.ForAll([j], z3.Implies(z3.And(0 <= j, j < N2.ln(d.ni)), relem(r, nij) == N2.el(g, nij) * N2.el(d.nf, nij)))),
+                ("identity-elsewhere", z3.ForAll([i], z3.Implies(z3.And(0 <= i, i < d.dim, N2.not_normalized(d, i)), relem(r, i) == N2.el(g, i)))),
+                ("fresh-result", z3.BoolVal(c.result.ref.id != c.old.g_vect.ref.id))]
+
+
+@register
+class UnnormalizeGrad(Contract):
+    """unnormalize_grad is the inverse scaling g[i] / (ub[i] - lb[i]) on the normalised components with lb < ub (g[i] where lb = ub) and the identity elsewhere."""
+
+    targets = (UG,)
+    variant = "int"
+    prop = ("C02",)
+    self_schema = DS + "#num"
+    numpy = "precise"
+    params = {"g_vect": F1}
+    returns = F1
+
+    def requires(self, c):
+        s = c.old.self
+        d = N2.S(s)
+        return N2.wfnum(s) + [("vector-length", N2.ln(c.old.g_vect) == d.dim), ("monotone-lemma", N2.increasing_implies_distinct(d))]
+
+    def ensures(self, c):
+        d = N2.S(c.old.self)
+        g, r = c.old.g_vect, c.result
+        j, i = z3.Int("j!ug"), z3.Int("i!ug")
+        at = lambda a: N2.el(a, N2.el(d.ni, j))  # noqa: E731
+        return [("length", N2.ln(r) == d.dim),
+                ("scaled-on-normalized-components", z3.ForAll([j], z3.Implies(z3.And(0 <= j, j < N2.ln(d.ni)),
+                                                                             N2.el(r, N2.el(d.ni, j)) == z3.If(at(d.ub) == at(d.lb), at(g), at(g) / (at(d.ub) - at(d.lb)))))),
+                ("identity-elsewhere", z3.ForAll([i], z3.Implies(z3.And(0 <= i, i < d.dim, N2.not_normalized(d, i)), N2.el(r, i) == N2.el(g, i)))),
+                ("fresh-result", z3.BoolVal(c.result.ref.id != c.old.g_vect.ref.id))]
 
 
 # ---------------------------------------------------------------------------- from ANY well-formed state: the functions that refresh the cache themselves
@@ -775,3 +867,355 @@ class MonotoneLemma(Contract):
         claim = lambda t: z3.ForAll([j], z3.Implies(z3.And(0 <= j, j + t < m), a[j] < a[j + t]), patterns=[a[j]])  # noqa: E731
         return [("base", z3.Implies(hyp, claim(z3.IntVal(1)))),
                 ("step", z3.Implies(z3.And(hyp, dd >= 1, claim(dd)), claim(dd + 1)))]
+
+
+@register
+class OwnerLemmas(Contract):
+    """Induction on the number of variables (base + step with explicit witnesses): with index ranges S(k)..E(k) that start at 0 and are adjacent, every
+    position below E(m) lies in the range of one of the first m + 1 variables; c02_owner is a Skolem function of this existence statement
+    (dimension = E(n - 1) by the `dimension` clause of the invariant)."""
+
+    targets = ()
+    prop = ("C02",)
+    lemma = True
+
+    def lemmas(self):
+        S, E = z3.Function("S", z3.IntSort(), z3.IntSort()), z3.Function("E", z3.IntSort(), z3.IntSort())  # noqa: N806
+        n, m, k, i, b = z3.Ints("n m k i b")
+        hyp = z3.And(z3.Implies(n > 0, S(0) == 0), z3.ForAll([k], z3.Implies(z3.And(0 <= k, k + 1 < n), S(k + 1) == E(k)), patterns=[S(k + 1)]))
+        inside = lambda t, top: z3.And(0 <= t, t <= top, S(t) <= i, i < E(t))  # noqa: E731
+        return [("base", z3.Implies(z3.And(hyp, n > 0, 0 <= i, i < E(0)), inside(z3.IntVal(0), z3.IntVal(0)))),
+                # induction hypothesis: b is an owner among the first m + 1 variables when i < E(m); then b, or m + 1, is one among the first m + 2
+                ("step", z3.Implies(z3.And(hyp, 0 <= m, m + 1 < n, 0 <= i, i < E(m + 1), z3.Implies(i < E(m), inside(b, m))),
+                                    z3.Or(inside(b, m + 1), inside(m + 1, m + 1))))]
+
+
+# ---------------------------------------------------------------------------- check_membership (array form, every variable)
+CM = DS + ".check_membership"
+
+
+def comp_bound(s, i, which):
+    """The bound (per-variable view) of component i of the design vector."""
+    v = D.V(s)
+    o = owner(s, i)
+    return F1.els(which(v.vals[v.keys[o]]))[i - D.start(rngk(s, o))]
+
+
+def some_component_out_of_bounds(s, x):
+    i = z3.Int("i!ob")
+    tol = s._DesignSpace__bound_tol
+    xi = N2.el(x, i)
+    return z3.Exists([i], z3.And(0 <= i, i < s.dimension, z3.Or(xi < comp_bound(s, i, vlb) - tol, xi > comp_bound(s, i, vub) + tol)))
+
+
+@register
+class CheckMembershipOfAnArray(Contract):
+    """check_membership(array) decides against the CURRENT bounds of the variables, whatever the history of edits and queries: ValueError iff the size is
+    not the dimension or some component is below its variable's lower bound - tolerance or above its upper bound + tolerance (comparisons of the
+    stored real values: the model sees an infinite bound only as a tag)."""
+
+    targets = (CM,)
+    variant = "lnk"
+    prop = ("C02",)
+    self_schema = DS + "#lnk"
+    numpy = "precise"
+    c02_lnk = True
+    params = {"x_vect": F1}
+    modifies = ("self",)
+    callee_variants = {GLB: "lnk", GUB: "lnk"}
+
+    @property
+    def raises(self):
+        return {"ValueError": lambda c: z3.Or(N2.ln(c.old.x_vect) != c.old.self.dimension, some_component_out_of_bounds(c.old.self, c.old.x_vect))}
+
+    def requires(self, c):
+        return wf_lnk(c.old.self) + [("every-variable", z3.BoolVal(c.arg("variable_names") is None))]
+
+    def axioms(self, c):
+        return derived_all(c.old.self)
+
+    def ensures(self, c):
+        s0, s1 = c.old.self, c.new.self
+        return kept(s0, s1, STRUCT_LNK + ("_DesignSpace__norm_data_is_computed",)) + [(f"cache-invariant:{l}", f) for l, f in cache_invariant(s1)]
+
+
+# ---------------------------------------------------------------------------- __check_membership (dictionary form, every variable)
+from pyvc.values import TNone, TOpt  # noqa: E402
+
+CMD, ISI = DS + ".__check_membership", DS + ".__is_integer"
+OVALS = TDict(TStr, TOpt(F1))
+OF1 = TOpt(F1)
+integral = z3.Function("c02_is_integer_value", z3.RealSort(), z3.BoolSort())
+
+
+@register
+class IsIntegerScalar(Contract):
+    targets = (ISI,)
+    variant = "scalar"
+    prop = ("C02",)
+    numpy = "precise"
+    self_class = DS
+    params = {"values": TReal}
+    returns = TBool
+    trusted = True
+    description = ("assumed: __is_integer(x) of a real scalar is a deterministic predicate of x (integer-valued or infinite; numpy.mod / isinf on a scalar), "
+                   "truth of the one-element array it returns; nothing is modified")
+
+    def ensures(self, c):
+        return [("predicate", c.result == integral(c.old.values))]
+
+
+def payload(xd, name):
+    return OF1.dt.get(xd.vals[name])
+
+
+def comp_ok(s, xd, name, t):
+    """Component t of the value of `name` is within the bounds (up to the tolerance) and integer-valued for an integer variable."""
+    var = D.V(s).vals[name]
+    x = F1.els(payload(xd, name))[t]
+    tol = s._DesignSpace__bound_tol
+    return z3.And(z3.Not(x < F1.els(vlb(var))[t] - tol), z3.Not(F1.els(vub(var))[t] + tol < x), z3.Implies(vtype(var) == INTEGER, integral(x)))
+
+
+def value_ok(s, xd, name):
+    """A None value is skipped; another one has the size of its variable and all its components are fine."""
+    var = D.V(s).vals[name]
+    t = z3.Int("t!vo")
+    val = payload(xd, name)
+    return z3.Or(OF1.is_none(xd.vals[name]),
+                 z3.And(F1.dim(val) == vsize(var), z3.ForAll([t], z3.Implies(z3.And(0 <= t, t < vsize(var)), comp_ok(s, xd, name, t)), patterns=[F1.els(val)[t]])))
+
+
+def first_values_ok(s, xd, k):
+    v = D.V(s)
+    p = z3.Int("p!fv")
+    return z3.ForAll([p], z3.Implies(z3.And(0 <= p, p < k), z3.And(xd.has(v.keys[p]), value_ok(s, xd, v.keys[p]))), patterns=[v.keys[p]])
+
+
+def some_value_not_ok(s, xd):
+    v = D.V(s)
+    p = z3.Int("p!sn")
+    return z3.Exists([p], z3.And(0 <= p, p < v.n, xd.has(v.keys[p]), z3.Not(value_ok(s, xd, v.keys[p]))))
+
+
+def _cmd_outer(c, k):
+    return [("the-first-k-variables-are-fine", first_values_ok(c.old.self, c.old.x_dict, k))]
+
+
+def _cmd_inner(c, i):
+    s, xd = c.old.self, c.old.x_dict
+    nm = c.locals["name"]
+    t = z3.Int("t!ci")
+    val = payload(xd, nm)
+    return [("the-first-i-components-are-fine", z3.ForAll([t], z3.Implies(z3.And(0 <= t, t < i), comp_ok(s, xd, nm, t)), patterns=[F1.els(val)[t]]))]
+
+
+@register
+class CheckMembershipOfADict(Contract):
+    """__check_membership(x_dict, None): EVERY variable is checked, in the variable order, a None value being skipped: ValueError iff some variable has a
+    value of the wrong size, or with a component outside its bounds (up to the tolerance), or a non-integer component for an integer variable;
+    KeyError only when some variable is no key of x_dict; nothing is modified."""
+
+    targets = (CMD,)
+    variant = "lnk"
+    prop = ("C02",)
+    self_schema = DS + "#lnk"
+    numpy = "precise"
+    c02_lnk = True
+    params = {"x_dict": OVALS, "variable_names": TNone}
+    callee_variants = {ISI: "scalar"}
+    loops = {0: LoopSpec(anchor="variable_names", inv=_cmd_outer, local_types={"name": TStr, "variable": VARA, "value": OF1}),
+             1: LoopSpec(anchor="range(variable.size)", inv=_cmd_inner, local_types={"i": TInt, "x_real": TReal, "lower_bound": TReal, "upper_bound": TReal})}
+
+    @property
+    def raises(self):
+        def missing(c):
+            v, xd = D.V(c.old.self), c.old.x_dict
+            p = z3.Int("p!ms")
+            return z3.Exists([p], z3.And(0 <= p, p < v.n, z3.Not(xd.has(v.keys[p]))))
+
+        return {"ValueError": lambda c: some_value_not_ok(c.old.self, c.old.x_dict), "KeyError": missing}
+
+    def requires(self, c):
+        s = c.old.self
+        return wf_structure(s) + wf_variables(s)
+
+    def axioms(self, c):
+        return D.derived_wf(c.old.self)
+
+
+# ---------------------------------------------------------------------------- filter_dimensions at the link level
+from pyvc.values import TList as _TList, TNd  # noqa: E402,F401
+
+FD, SCV, GCV, UCM = DS + ".filter_dimensions", DS + ".set_current_variable", DS + ".get_current_value", DS + ".__update_current_metadata"
+_RESTATED = ("restated for the link-level schema: the same function is VERIFIED against the same clauses under the structural schema in "
+             "contracts/c02_design_space.py ({}); current values are opaque at both levels")
+ALL_LNK = STRUCT_LNK + CACHE_LNK
+
+
+@register
+class SetCurrentVariableLnk(Contract):
+    targets = (SCV,)
+    variant = "lnk"
+    prop = ("C02",)
+    self_schema = DS + "#lnk"
+    params = {"name": TStr, "current_value": TNd}
+    modifies = ("self",)
+    raises = {"ValueError": lambda c: z3.Not(D.V(c.old.self).has(c.old.name))}
+    trusted = True
+    description = "assumed, " + _RESTATED.format("SetCurrentVariable")
+
+    def ensures(self, c):
+        s0, s1 = c.old.self, c.new.self
+        cv0, cv1 = D.CV(s0), D.CV(s1)
+        k = z3.Const("k!scv", TStr.sort())
+        nm = c.old.name
+        return [("value-set", z3.And(cv1.has(nm), cv1.vals[nm] == D.CUR.v.dt.some(c.old.current_value))),
+                ("others-kept", z3.ForAll([k], z3.Implies(k != nm, z3.And(cv1.has(k) == cv0.has(k), z3.Implies(cv0.has(k), cv1.vals[k] == cv0.vals[k]))))),
+                wf_structure(s1)[-1]] + kept(s0, s1, [f for f in ALL_LNK if f not in ("_DesignSpace__current_value", "_DesignSpace__has_current_value")])
+
+
+@register
+class GetCurrentValueLnk(Contract):
+    targets = (GCV,)
+    variant = "lnk"
+    prop = ("C02",)
+    self_schema = DS + "#lnk"
+    params = {"variable_names": TList(TStr)}
+    returns = TNd
+    raises_exact = False
+    trusted = True
+    description = "assumed (as GetCurrentValue in c02_design_space.py): get_current_value returns an opaque array and changes nothing of the link-level state"
+
+    @property
+    def raises(self):
+        def some_name_without_value(c):
+            i = z3.Int("i!gcv")
+            L, cv = c.old.variable_names, D.CV(c.old.self)  # noqa: N806
+            return z3.Exists([i], z3.And(0 <= i, i < L.n, z3.Not(cv.has(L.elems[i]))))
+
+        return {"ValueError": None, "KeyError": some_name_without_value}
+
+
+@register
+class UpdateCurrentMetadataLnk(Contract):
+    targets = (UCM,)
+    variant = "lnk"
+    prop = ("C02",)
+    self_schema = DS + "#lnk"
+    modifies = ("self",)
+    trusted = True
+    description = "assumed, " + _RESTATED.format("UpdateCurrentMetadata / UpdateCurrentStatus / ClearDependentData")
+
+    def ensures(self, c):
+        return kept(c.old.self, c.new.self, [f for f in ALL_LNK if f != "_DesignSpace__has_current_value"])
+
+
+@register
+class FilterDimensionsLnk(Contract):
+    """Link level of filter_dimensions: the bounds AND the normalisation policy of `name` keep exactly the listed components (in the listed order), so
+    that every policy still has one entry per component of its variable; the other variables and policies are untouched, the cached data are dropped."""
+
+    targets = (FD,)
+    variant = "lnk"
+    prop = ("C02",)
+    self_schema = DS + "#lnk"
+    numpy = "precise"
+    c02_lnk = True
+    variable_record = VARA
+    params = {"name": TStr, "dimensions": TList(TInt)}
+    modifies = ("self",)
+    raises = {"ValueError": None, "IndexError": None}
+    raises_exact = False
+    callee_variants = {SCV: "lnk", GCV: "lnk", UCM: "lnk"}
+    loops = {0: LoopSpec(anchor="self.__names_to_indices.items()", modifies=("self._DesignSpace__names_to_indices#vals",), inv=D._filter_inv,
+                         local_types={"_name": TStr, "indices": D.TRange})}
+
+    def requires(self, c):
+        s = c.old.self
+        return wf_structure(s) + wf_variables(s) + wf_policies(s)
+
+    def axioms(self, c):
+        return D.derived_wf(c.old.self)
+
+    def ensures(self, c):
+        s0, s1 = c.old.self, c.new.self
+        nm, dims = c.old.name, c.old.dimensions
+        v0, v1, n0, n1 = D.V(s0), D.V(s1), D.N(s0), D.N(s1)
+        k = z3.Const("k!fdl", TStr.sort())
+        t = z3.Int("t!fdl")
+        var0, var1 = v0.vals[nm], v1.vals[nm]
+        sz0 = vsize(var0)
+        src = z3.If(dims.elems[t] < 0, dims.elems[t] + sz0, dims.elems[t])  # (numpy semantics of a negative index)
+        rng = z3.And(0 <= t, t < dims.n)
+        return wf_structure(s1) + wf_variables(s1) + wf_policies(s1) + [
+            ("known-variable", v0.has(nm)),
+            ("variables-order", D.same_key_order(v1, v0)),
+            ("other-variables-kept", z3.ForAll([k], z3.And(v1.has(k) == v0.has(k), z3.Implies(z3.And(v0.has(k), k != nm), v1.vals[k] == v0.vals[k])))),
+            ("other-policies-kept", z3.ForAll([k], z3.And(n1.has(k) == n0.has(k), z3.Implies(z3.And(n0.has(k), k != nm), n1.vals[k] == n0.vals[k])))),
+            ("new-size-and-type", z3.And(vsize(var1) == dims.n, vtype(var1) == vtype(var0))),
+            ("policy-has-the-new-size", B1.dim(n1.vals[nm]) == dims.n),
+            ("lower-bound-filtered", z3.ForAll([t], z3.Implies(rng, F1.els(vlb(var1))[t] == F1.els(vlb(var0))[src]))),
+            ("upper-bound-filtered", z3.ForAll([t], z3.Implies(rng, F1.els(vub(var1))[t] == F1.els(vub(var0))[src]))),
+            ("policy-filtered", z3.ForAll([t], z3.Implies(rng, B1.els(n1.vals[nm])[t] == B1.els(n0.vals[nm])[src]))),
+            ("dimension", s1.dimension == s0.dimension - (sz0 - dims.n)),
+            ("norm-data-dropped", z3.Not(s1._DesignSpace__norm_data_is_computed)),
+        ]
+
+
+# ---------------------------------------------------------------------------- transform_vect / untransform_vect: delegation
+TV, UTV = DS + ".transform_vect", DS + ".untransform_vect"
+
+
+class _Delegate(Contract):
+    prop = ("C02",)
+    variant = "int"
+    self_schema = DS + "#num"
+    numpy = "precise"
+    returns = F1
+
+    def requires(self, c):
+        s = c.old.self
+        d = N2.S(s)
+        return N2.wfnum(s) + [("vector-length", N2.ln(c.old.vector) == d.dim), ("monotone-lemma", N2.increasing_implies_distinct(d)), ("out-is-none", c.arg("out") is None)]
+
+
+@register
+class TransformVect(_Delegate):
+    """transform_vect(x) = normalize_vect(x) (lower bound removed): the clauses of c02_normalization.NormalizeVect with minus_lb = True."""
+
+    targets = (TV,)
+    params = {"vector": F1}
+
+    def ensures(self, c):
+        d = N2.S(c.old.self)
+        x, r = c.old.vector, c.result
+        j, i = z3.Int("j!tv"), z3.Int("i!tv")
+        at = lambda a: N2.el(a, N2.el(d.ni, j))  # noqa: E731
+        return [("length", N2.ln(r) == d.dim),
+                ("normalized-components", z3.ForAll([j], z3.Implies(z3.And(0 <= j, j < N2.ln(d.ni)),
+                                                                   N2.el(r, N2.el(d.ni, j)) == z3.If(at(d.ub) == at(d.lb), at(x) - at(d.lb), (at(x) - at(d.lb)) / (at(d.ub) - at(d.lb)))))),
+                ("other-components-unchanged", z3.ForAll([i], z3.Implies(z3.And(0 <= i, i < d.dim, N2.not_normalized(d, i)), N2.el(r, i) == N2.el(x, i))))]
+
+
+@register
+class UntransformVect(_Delegate):
+    """untransform_vect(u) = unnormalize_vect(u) for points: the clauses of UnnormalizeVectWithIntegers with minus_lb = True (rounding of integer components)."""
+
+    targets = (UTV,)
+    params = {"vector": F1, "no_check": TBool}
+    callee_variants = {UV: "int"}
+
+    def axioms(self, c):
+        t = z3.Real("t!ra")
+        return [("numpy.round-is-integer-valued", z3.ForAll([t], z3.IsInt(np_round(t)), patterns=[np_round(t)]))]
+
+    def ensures(self, c):
+        d = N2.S(c.old.self)
+        x, r = c.old.vector, c.result
+        j, i = z3.Int("j!utv"), z3.Int("i!utv")
+        nij = N2.el(d.ni, j)
+        affine = N2.el(x, nij) * N2.el(d.nf, nij) + N2.el(d.lb, nij)
+        return [("length", N2.ln(r) == d.dim),
+                ("normalized-components", z3.ForAll([j], z3.Implies(z3.And(0 <= j, j < N2.ln(d.ni)), relem(r, nij) == rounded_if_integer(d, nij, affine)))),
+                ("other-components", z3.ForAll([i], z3.Implies(z3.And(0 <= i, i < d.dim, N2.not_normalized(d, i)), relem(r, i) == rounded_if_integer(d, i, N2.el(x, i)))))]
